@@ -79,12 +79,13 @@ func helperFuncs(p *load.Program) []*ssa.Function {
 
 func runC08(c *core.Ctx) {
 	runFixtures(c, "drop")
-	c.Explain("Structural clauses of C08 decided from source for every package-level helper of hackpadfs whose first parameter is an FS or a File (and the unexported functions only they reach): (R08.1) for every call that returns an error — other helpers, interface methods, File methods — on every path on which that error is non-nil the helper returns it, wraps it, hands it on, returns another definitely non-nil error, or consumes it through an enumerated idiom (errors.Is(ErrNotExist) inside RemoveAll's recursion, errors.Is(ErrExist) inside MkdirAll, errors.Is(ErrNotImplemented) to try the next capability, closing a read-only handle); a nil/may-be-nil return on such a path is a violation ('a helper never reports success for work that was not done'); (R08.3) the path on which every capability assertion of a helper failed returns a *PathError/*LinkError carrying ErrNotImplemented or enters the documented fallback; (R08.4, contradiction rule) inside one helper all calls of the same fallible callee consult the same sentinels (errors.Is) on its error — if one Mkdir site tolerates ErrExist and another returns it, the fallback answers 'already there' differently from the optimised implementation; (R08.5, sibling agreement) a mode/flag/perm/time parameter of a helper reaches every delegate that receives it as the parameter itself — a branch that passes 'mode & K' where its siblings pass 'mode' makes the result depend on the capability subset; (R08.6) the recursive removal behind RemoveAll takes its 'is a directory' decision from Lstat/LstatOrStat, never from Stat. NOT claimed: equality of results and final state between the optimised path and the fallback across the 2^k capability subsets.")
+	c.Explain("Structural clauses of C08 decided from source for every package-level helper of hackpadfs whose first parameter is an FS or a File (and the unexported functions only they reach): (R08.1) for every call that returns an error — other helpers, interface methods, File methods — on every path on which that error is non-nil the helper returns it, wraps it, hands it on, returns another definitely non-nil error, or consumes it through an enumerated idiom (errors.Is(ErrNotExist) inside RemoveAll's recursion, errors.Is(ErrExist) inside MkdirAll, errors.Is(ErrNotImplemented) to try the next capability, closing a read-only handle); a nil/may-be-nil return on such a path is a violation ('a helper never reports success for work that was not done'); (R08.3) the path on which every capability assertion of a helper failed returns a *PathError/*LinkError carrying ErrNotImplemented or enters the documented fallback; (R08.4, contradiction rule) inside one helper all calls of the same fallible callee consult the same sentinels (errors.Is) on its error — if one Mkdir site tolerates ErrExist and another returns it, the fallback answers 'already there' differently from the optimised implementation; (R08.5, sibling agreement) a mode/flag/perm/time parameter of a helper reaches every delegate that receives it as the parameter itself — a branch that passes 'mode & K' where its siblings pass 'mode' makes the result depend on the capability subset; (R08.6) the recursive removal behind RemoveAll takes its 'is a directory' decision from Lstat/LstatOrStat, never from Stat; (R08.7) among the helpers that take a File only SeekFile invokes Seek (no positioned operation is emulated by moving the handle's position). NOT claimed: equality of results and final state between the optimised path and the fallback across the 2^k capability subsets.")
 	c.Assume("A1: interface-dispatched FS/File methods return nil error only when the operation was done", "A6: partial correctness")
 	c.RuleDoc("R08.1", "no primitive error dropped on any failing path of a helper")
 	c.RuleDoc("R08.4", "sibling calls of one callee inside a helper consult the same sentinels")
 	c.RuleDoc("R08.5", "a non-name parameter reaches every delegate of a helper in the same form")
 	c.RuleDoc("R08.6", "recursive removal classifies entries without following symbolic links")
+	c.RuleDoc("R08.7", "only SeekFile moves a file's position")
 	c.RuleDoc("R08.3", "all-capabilities-missing path returns ErrNotImplemented or enters the fallback")
 	for _, p := range c.Progs {
 		c.SetProg(p)
@@ -147,12 +148,14 @@ func runC08(c *core.Ctx) {
 		r08Siblings(c, p, list)
 		r08ParamForms(c, p, helpers)
 		r08NoFollow(c, p, removeAllCtx)
+		r08NoSeekEmulation(c, p, helpers)
 	}
 	c.Floor("R08.1", 40)
 	c.Floor("R08.3", 25)
 	c.Floor("R08.4", 2)
 	c.Floor("R08.5", 10)
 	c.Floor("R08.6", 1)
+	c.Floor("R08.7", 8)
 }
 
 // r08NotImplemented: (also R05.4) in each helper, the return reached when every type assertion failed.
@@ -426,5 +429,31 @@ func r08NoFollow(c *core.Ctx, p *load.Program, fns map[*ssa.Function]bool) {
 			c.Check(!follows, "R08.6", key, p.Pos(cl.Pos()), "the kind test that decides the descent comes from "+name+" (does not follow links)",
 				fmt.Sprintf("%s decides whether to descend from %s, which follows symbolic links: RemoveAll of a link to a directory lists and deletes the contents of the link's target, where the optimised implementation only unlinks the link", fname(fn), name))
 		})
+	}
+}
+
+// r08NoSeekEmulation (R08.7, who-may-call): among the helpers that take a File, only SeekFile moves the file's position
+// (invokes Seek). A helper that emulates a positioned operation (ReadAt, WriteAt) through Seek + Read/Write succeeds on
+// the reduced capability set but leaves the position moved: neither the full file's result nor ErrNotImplemented.
+func r08NoSeekEmulation(c *core.Ctx, p *load.Program, helpers []*ssa.Function) {
+	for _, fn := range helpers {
+		if len(fn.Params) == 0 || !hasMethods(fn.Params[0].Type(), "Read", "Stat", "Close") {
+			continue
+		}
+		key := fname(fn) + "|does-not-move-the-position"
+		var seek *ssa.Call
+		ssax.Instrs(fn, func(ins ssa.Instruction) {
+			if cl, ok := ins.(*ssa.Call); ok && cl.Call.IsInvoke() && cl.Call.Method.Name() == "Seek" {
+				seek = cl
+			}
+		})
+		switch {
+		case fn.Name() == "SeekFile":
+			c.OKTrivial("R08.7", key, p.Pos(fn.Pos()), "SeekFile is the helper whose job is to move the position")
+		case seek != nil:
+			c.Bad("R08.7", key, p.Pos(seek.Pos()), fmt.Sprintf("%s calls Seek on the file: a positioned or stateless operation emulated by moving the handle's position succeeds on files without the native method but leaves the position changed, so a following sequential Read or Write continues somewhere else — the result matches neither the full file's nor ErrNotImplemented", fname(fn)))
+		default:
+			c.OK("R08.7", key, p.Pos(fn.Pos()), "does not call Seek")
+		}
 	}
 }
